@@ -6,7 +6,10 @@ SPEC = Spec(
     harnesses=[
         Harness(name="resolve", module="confmap", pkg="confmap",
                 files={"zz_verif_c12_resolve_test.go": "c12/resolve_test.go"},
-                test="TestVerifC12Resolve", driver="drv_c12", n={"quick": 32000, "thorough": 400000}, timeout_s=1500),
+                test="TestVerifC12Resolve", driver="drv_c12", n={"quick": 26000, "thorough": 400000}, timeout_s=1500),
+        Harness(name="env", module="confmap/internal/e2e", pkg="confmap/internal/e2e",
+                files={"zz_verif_c12_env_test.go": "c12/env_test.go"},
+                test="TestVerifC12Env", driver="drv_c12", n={"quick": 4000, "thorough": 60000}, timeout_s=900),
     ],
     rule="cases 0-17 are the corpus (both escaping defects of the pinned tree, cycles incl. an embedded one-element cycle, $ in a name, "
          "typed whole value, nested reference, provider value with references/escapes, 999 vs 1000 references, a 5-source merge, "
